@@ -5,17 +5,19 @@
 (* -> compute, over abstract field domains:                                              *)
 (*   dims : one record per dimension (0-based index i0 = position - 1)                   *)
 (*          dist   in {"Ok", "Missing"}                    key 'distribution'            *)
-(*          cond   in {Absent} \cup -1..n                  key 'conditional_on'          *)
+(*          cond   in {Absent, CondNone} \cup -1..n        key 'conditional_on'          *)
 (*          params in {"Absent", "Exact", "MissingOne", "UnknownName",                   *)
 (*                     "FixedAndDependent"}                key 'parameters'              *)
 (*          extra  in BOOLEAN                              an unknown key                *)
-(*          slicer in {"Ok", "UnknownKwarg", "UnknownRef", "RefWrongType", "TooFew"}     *)
+(*          slicer in {"Ok", "UnknownKwarg", "UnknownRef", "RefWrongType", "TooFew",     *)
+(*                     "RangeAboveData"}                                                  *)
 (*   fit  : [kind, pos]  fit_descriptions: "None" | "Ok" | "TooShort" | "TooLong" |      *)
 (*          "MissingMethod" | "UnknownMethod" | "UnknownWeights" (at dimension pos)      *)
-(*   data : "Ok" | "TooFewCols" | "TooManyCols" | "OneDim"                               *)
+(*   data : "Ok" | "TooFewCols" | "TooManyCols" | "OneDim" | "Ndim3"                     *)
 (*   op   : [kind, arg, pos]  what is computed from the fitted model:                    *)
-(*          kind in {"iform", "hdc", "ds", "and", "or", "pdf", "cdf"}, arg "Ok" or the   *)
-(*          malformed option (at dimension pos)                                          *)
+(*          kind in {"iform", "hdc", "ds", "and", "or", "pdf", "cdf", "mpdf", "mcdf",    *)
+(*          "micdf", "ccdf", "cicdf" (marginal_* / conditional_* of dimension pos),      *)
+(*          "tpdf" (TransformedModel.pdf)}, arg "Ok" or the malformed argument           *)
 (*   mal  : the malformations that were injected (for keys and CatalogueConsistent)      *)
 (*   ctx  : the CONTEXT in which they are injected - the rest of the call, which a        *)
 (*          validation must not depend on:                                                *)
@@ -30,7 +32,8 @@
 (* Stages are numbered construct 1 < slice 2 < fit 3 < compute 4; 5 = a result exists.   *)
 EXTENDS Integers, Sequences, FiniteSets, Fix
 
-Absent == -9
+Absent == -9       \* key 'conditional_on' not present
+CondNone == -8     \* 'conditional_on': None written out
 
 (* valid dependency structures of 1-4 dimensional models *)
 Bases == << <<Absent>>,
@@ -62,16 +65,21 @@ BaseCase(b, op, fitkind) ==
 ----------------------------------------------------------------------------
 (* the documented rules                                                        *)
 
+IsCond(dm) == dm.cond \notin {Absent, CondNone}
 (* hierarchy rule: a conditional dimension i0 >= 1 depends on an EARLIER one *)
 HierarchyOk(i0, cond) == i0 >= 1 /\ 0 <= cond /\ cond < i0
 
 DescOk(i0, dm) ==                       \* what the model description must satisfy
     /\ dm.dist = "Ok"
     /\ ~dm.extra
-    /\ IF dm.cond = Absent THEN dm.params = "Absent"
+    \* 'parameters' describes the dependence of a CONDITIONAL variable: without (or with None)
+    \* 'conditional_on' it is ill-formed (it used to be dropped silently)
+    /\ IF ~IsCond(dm) THEN dm.params = "Absent"
        ELSE HierarchyOk(i0, dm.cond) /\ dm.params = "Exact"
-SlicerBuildOk(dm) == dm.slicer # "UnknownKwarg"
-SlicerUseOk(dm) == dm.slicer \notin {"UnknownRef", "RefWrongType", "TooFew"}
+(* a slicer is checked where it is supplied, i.e. when it is constructed: option names and  *)
+(* the reference (keyword / type); what only the data can tell is checked when slicing       *)
+SlicerBuildOk(dm) == dm.slicer \notin {"UnknownKwarg", "UnknownRef", "RefWrongType"}
+SlicerUseOk(dm) == dm.slicer \notin {"TooFew", "RangeAboveData"}
 FitOk(c) == c.fit.kind \in {"None", "Ok"} /\ c.data = "Ok"
 TwoDimOnly == {"ds", "and", "or"}
 OpOk(c) == c.op.arg = "Ok" /\ (c.op.kind \in TwoDimOnly => c.n = 2)
@@ -89,22 +97,27 @@ Stage(c) ==
     ELSE IF ~OpOk(c) THEN 4
     ELSE 5
 
-(* the enumerated domain never contains 'parameters' without 'conditional_on' (the        *)
-(* property does not decide it; the code ignores the key)                                 *)
+(* 'conditional_on': None is only enumerated together with 'parameters' *)
 FitAtNames == {"MissingMethod", "UnknownMethod", "UnknownWeights"}
 InDomain(c) ==
-    /\ \A i \in 1..c.n : c.dims[i].cond = Absent => c.dims[i].params = "Absent"
+    /\ \A i \in 1..c.n : c.dims[i].cond = CondNone => c.dims[i].params # "Absent"
     \* an all-fixed carrier only where the fit description of that (unconditional) dimension is
     \* malformed: scipy itself refuses a well-formed fit of a distribution with nothing to estimate
     /\ (c.ctx.fixed # -1 => /\ c.ctx.fixed \in 0..(c.n - 1)
                              /\ c.dims[c.ctx.fixed + 1].cond = Absent
+                             /\ c.dims[c.ctx.fixed + 1].params = "Absent"
                              /\ c.fit.kind \in FitAtNames /\ c.fit.pos = c.ctx.fixed)
     \* an unfitted model only where everything up to the fit is well-formed
     /\ (~c.ctx.fitted => c.fit.kind \in {"None", "Ok"} /\ c.data = "Ok")
     /\ (c.ctx.sample # "none" => c.op.kind \in TwoDimOnly)
     /\ (c.ctx.opt # "given" => c.op.kind = "hdc")
-    /\ (c.ctx.skind # "any" => /\ \E i \in 1..c.n : c.dims[i].slicer = "UnknownKwarg"
-                                /\ (c.ctx.skw = "bogus" \/ c.ctx.skw \in ForeignOptions(c.ctx.skind)))
+    /\ (c.ctx.skind # "any" =>
+          \/ /\ \E i \in 1..c.n : c.dims[i].slicer = "UnknownKwarg"
+             /\ (c.ctx.skw = "bogus" \/ c.ctx.skw \in ForeignOptions(c.ctx.skind))
+          \/ /\ \E i \in 1..c.n : c.dims[i].slicer \in {"UnknownRef", "RefWrongType"}
+             /\ c.ctx.skw = "reference"
+          \/ /\ \E i \in 1..c.n : c.dims[i].slicer = "RangeAboveData"
+             /\ c.ctx.skw = "value_range" /\ c.ctx.skind \in {"Width", "Number"})
 
 Documented == {"ValueError", "TypeError", "RuntimeError", "NotImplementedError"}
 
@@ -114,19 +127,29 @@ Documented == {"ValueError", "TypeError", "RuntimeError", "NotImplementedError"}
 M(name, pos) == [name |-> name, pos |-> pos]
 CondNames == {"CondSelf", "CondLater", "CondNonexistent", "CondNegative", "FirstConditional"}
 ParamNames == {"CondNoParams", "ParamMissingOne", "ParamUnknownName", "ParamFixedAndDependent"}
-SlicerNames == {"SlicerUnknownKwarg", "SlicerUnknownRef", "SlicerRefWrongType", "SlicerTooFew"}
+UncondParamNames == {"ParamsNoCond", "ParamsNoCondUnknown"}       \* 'parameters' on an unconditional variable
+SlicerNames == {"SlicerUnknownKwarg", "SlicerUnknownRef", "SlicerRefWrongType", "SlicerTooFew",
+                "SlicerRangeAboveData"}
+(* non-finite / surplus evaluation points of the marginal_*, conditional_* and TransformedModel entry points *)
+PointNames == {"MpdfNaN", "MpdfInf", "McdfNaN", "McdfInf", "MicdfNaN", "MicdfInf", "CcdfNaN", "CcdfInf",
+               "CcdfGivenNaN", "CcdfGivenInf", "CicdfNaN", "CicdfInf", "CicdfGivenNaN", "CicdfGivenInf",
+               "TpdfNaN", "TpdfInf"}
+SurplusNames == {"PdfSurplus", "CdfSurplus", "TpdfSurplus"}
+SingleOnly == PointNames \cup SurplusNames          \* injected singly, not in pairs
 
 Malformations(b) ==
     LET n == Len(Bases[b]) D == 0..(n - 1) IN
       {M("NoDistribution", i) : i \in D} \cup {M("ExtraKey", i) : i \in D}
       \cup {M(nm, i) : nm \in ParamNames, i \in {k \in D : Bases[b][k + 1] # Absent}}
+      \cup {M(nm, i) : nm \in UncondParamNames \cup {"CondNoneParams"}, i \in {k \in D : Bases[b][k + 1] = Absent}}
+      \cup {M(nm, i) : nm \in PointNames, i \in D} \cup {M(nm, 0) : nm \in SurplusNames}
       \cup {M(nm, i) : nm \in {"CondSelf", "CondNonexistent", "CondNegative"}, i \in D \ {0}}
       \cup {M("CondLater", i) : i \in {k \in D : k >= 1 /\ k + 1 <= n - 1}}
       \cup {M("FirstConditional", 0)}
       \cup {M(nm, i) : nm \in SlicerNames, i \in D}
       \cup {M("FitTooShort", 0), M("FitTooLong", 0)}
       \cup {M(nm, i) : nm \in {"FitMissingMethod", "FitUnknownMethod", "FitUnknownWeights"}, i \in D}
-      \cup {M("DataTooFewCols", 0), M("DataTooManyCols", 0), M("DataOneDim", 0)}
+      \cup {M("DataTooFewCols", 0), M("DataTooManyCols", 0), M("DataOneDim", 0), M("DataNdim3", 0)}
       \cup {M(nm, 0) : nm \in {"HdcLimitsShort", "HdcLimitsLong", "HdcDeltasShort", "HdcDeltasLong",
                                "IformString", "IformDist", "IformNone"}}
       \cup {M(nm, i) : nm \in {"HdcLimitsNotPair", "HdcLimitsScalar", "PdfNaN", "PdfInf", "CdfNaN", "CdfInf"},
@@ -137,19 +160,25 @@ Malformations(b) ==
 Field(m) ==
     CASE m.name = "NoDistribution" -> <<"dist", m.pos>>
       [] m.name = "ExtraKey"       -> <<"extra", m.pos>>
-      [] m.name \in CondNames      -> <<"cond", m.pos>>
-      [] m.name \in ParamNames     -> <<"params", m.pos>>
+      [] m.name \in CondNames \cup {"CondNoneParams"} -> <<"cond", m.pos>>
+      [] m.name \in ParamNames \cup UncondParamNames -> <<"params", m.pos>>
       [] m.name \in SlicerNames    -> <<"slicer", m.pos>>
       [] m.name \in {"FitTooShort", "FitTooLong", "FitMissingMethod", "FitUnknownMethod",
                      "FitUnknownWeights"} -> <<"fit", 0>>
-      [] m.name \in {"DataTooFewCols", "DataTooManyCols", "DataOneDim"} -> <<"data", 0>>
+      [] m.name \in {"DataTooFewCols", "DataTooManyCols", "DataOneDim", "DataNdim3"} -> <<"data", 0>>
       [] OTHER -> <<"op", 0>>
 
 OpOf(m) ==
     CASE m.name \in {"HdcLimitsShort", "HdcLimitsLong", "HdcDeltasShort", "HdcDeltasLong",
                      "HdcLimitsNotPair", "HdcLimitsScalar"} -> [kind |-> "hdc", arg |-> m.name, pos |-> m.pos]
-      [] m.name \in {"PdfNaN", "PdfInf"} -> [kind |-> "pdf", arg |-> m.name, pos |-> m.pos]
-      [] m.name \in {"CdfNaN", "CdfInf"} -> [kind |-> "cdf", arg |-> m.name, pos |-> m.pos]
+      [] m.name \in {"PdfNaN", "PdfInf", "PdfSurplus"} -> [kind |-> "pdf", arg |-> m.name, pos |-> m.pos]
+      [] m.name \in {"CdfNaN", "CdfInf", "CdfSurplus"} -> [kind |-> "cdf", arg |-> m.name, pos |-> m.pos]
+      [] m.name \in {"MpdfNaN", "MpdfInf"} -> [kind |-> "mpdf", arg |-> m.name, pos |-> m.pos]
+      [] m.name \in {"McdfNaN", "McdfInf"} -> [kind |-> "mcdf", arg |-> m.name, pos |-> m.pos]
+      [] m.name \in {"MicdfNaN", "MicdfInf"} -> [kind |-> "micdf", arg |-> m.name, pos |-> m.pos]
+      [] m.name \in {"CcdfNaN", "CcdfInf", "CcdfGivenNaN", "CcdfGivenInf"} -> [kind |-> "ccdf", arg |-> m.name, pos |-> m.pos]
+      [] m.name \in {"CicdfNaN", "CicdfInf", "CicdfGivenNaN", "CicdfGivenInf"} -> [kind |-> "cicdf", arg |-> m.name, pos |-> m.pos]
+      [] m.name \in {"TpdfNaN", "TpdfInf", "TpdfSurplus"} -> [kind |-> "tpdf", arg |-> m.name, pos |-> m.pos]
       [] m.name \in {"IformString", "IformDist", "IformNone"} -> [kind |-> "iform", arg |-> m.name, pos |-> 0]
       [] m.name = "NonTwoDimDs"  -> OkOp("ds")
       [] m.name = "NonTwoDimAnd" -> OkOp("and")
@@ -166,6 +195,9 @@ ApplyOne(c, m) ==
       [] m.name = "ParamMissingOne"  -> [c EXCEPT !.dims[i].params = "MissingOne"]
       [] m.name = "ParamUnknownName" -> [c EXCEPT !.dims[i].params = "UnknownName"]
       [] m.name = "ParamFixedAndDependent" -> [c EXCEPT !.dims[i].params = "FixedAndDependent"]
+      [] m.name = "ParamsNoCond"     -> [c EXCEPT !.dims[i].params = "Exact"]
+      [] m.name = "ParamsNoCondUnknown" -> [c EXCEPT !.dims[i].params = "UnknownName"]
+      [] m.name = "CondNoneParams"   -> [c EXCEPT !.dims[i].cond = CondNone, !.dims[i].params = "Exact"]
       [] m.name = "CondSelf"         -> SetCond(c, i, m.pos)
       [] m.name = "CondLater"        -> SetCond(c, i, m.pos + 1)
       [] m.name = "CondNonexistent"  -> SetCond(c, i, c.n)
@@ -175,6 +207,7 @@ ApplyOne(c, m) ==
       [] m.name = "SlicerUnknownRef"   -> [c EXCEPT !.dims[i].slicer = "UnknownRef"]
       [] m.name = "SlicerRefWrongType" -> [c EXCEPT !.dims[i].slicer = "RefWrongType"]
       [] m.name = "SlicerTooFew"       -> [c EXCEPT !.dims[i].slicer = "TooFew"]
+      [] m.name = "SlicerRangeAboveData" -> [c EXCEPT !.dims[i].slicer = "RangeAboveData"]
       [] m.name = "FitTooShort"      -> [c EXCEPT !.fit = [kind |-> "TooShort", pos |-> 0]]
       [] m.name = "FitTooLong"       -> [c EXCEPT !.fit = [kind |-> "TooLong", pos |-> 0]]
       [] m.name = "FitMissingMethod" -> [c EXCEPT !.fit = [kind |-> "MissingMethod", pos |-> m.pos]]
@@ -183,6 +216,7 @@ ApplyOne(c, m) ==
       [] m.name = "DataTooFewCols"   -> [c EXCEPT !.data = "TooFewCols"]
       [] m.name = "DataTooManyCols"  -> [c EXCEPT !.data = "TooManyCols"]
       [] m.name = "DataOneDim"       -> [c EXCEPT !.data = "OneDim"]
+      [] m.name = "DataNdim3"        -> [c EXCEPT !.data = "Ndim3"]
       [] OTHER                       -> [c EXCEPT !.op = OpOf(m)]
 
 (* canonical order of a pair: by catalogue index, the 'conditional_on' malformations first *)
@@ -194,23 +228,28 @@ AllNames == <<"CondSelf", "CondLater", "CondNonexistent", "CondNegative", "First
               "FitUnknownWeights", "DataTooFewCols", "DataTooManyCols", "DataOneDim", "HdcLimitsShort",
               "HdcLimitsLong", "HdcDeltasShort", "HdcDeltasLong", "HdcLimitsNotPair", "HdcLimitsScalar",
               "PdfNaN", "PdfInf", "CdfNaN", "CdfInf", "IformString", "IformDist", "IformNone",
-              "NonTwoDimDs", "NonTwoDimAnd", "NonTwoDimOr">>
+              "NonTwoDimDs", "NonTwoDimAnd", "NonTwoDimOr", "CondNoneParams", "ParamsNoCond",
+              "ParamsNoCondUnknown", "SlicerRangeAboveData", "DataNdim3", "PdfSurplus", "CdfSurplus",
+              "TpdfSurplus", "MpdfNaN", "MpdfInf", "McdfNaN", "McdfInf", "MicdfNaN", "MicdfInf", "CcdfNaN",
+              "CcdfInf", "CcdfGivenNaN", "CcdfGivenInf", "CicdfNaN", "CicdfInf", "CicdfGivenNaN",
+              "CicdfGivenInf", "TpdfNaN", "TpdfInf">>
 Idx(name) == CHOOSE k \in 1..Len(AllNames) : AllNames[k] = name
-Key(m) == 10 * Idx(m.name) + m.pos
+Key(m) == IF m.name = "CondNoneParams" THEN m.pos ELSE 10 * Idx(m.name) + m.pos   \* cond-type first
 
 Single(b, m) == [ApplyOne(BaseCase(b, OkOp("iform"), "None"), m) EXCEPT !.mal = <<m>>]
 Pair(b, m1, m2) ==      \* m1 is applied first
     [ApplyOne(ApplyOne(BaseCase(b, OkOp("iform"), "None"), m1), m2) EXCEPT !.mal = <<m1, m2>>]
 
 (* well-formed cases: every base with every valid operation and fit description *)
-ValidOps(n) == {"iform", "pdf"} \cup (IF n = 1 THEN {"cdf"} ELSE {})
+ValidOps(n) == {"iform", "pdf", "mpdf", "mcdf", "micdf", "ccdf", "cicdf", "tpdf"} \cup (IF n = 1 THEN {"cdf"} ELSE {})
                 \cup (IF n <= 2 THEN {"hdc"} ELSE {}) \cup (IF n = 2 THEN TwoDimOnly ELSE {})
 GoodCases(BS) ==
     UNION {{BaseCase(b, OkOp(k), fk) : k \in ValidOps(Len(Bases[b])), fk \in {"None", "Ok"}} : b \in BS}
 Singles(BS) == UNION {{Single(b, m) : m \in Malformations(b)} : b \in BS}
 Pairs(BS) ==
     UNION {{Pair(b, mm[1], mm[2]) :
-              mm \in {x \in Malformations(b) \X Malformations(b) :
+              mm \in {x \in (Malformations(b) \ {y \in Malformations(b) : y.name \in SingleOnly})
+                           \X (Malformations(b) \ {y \in Malformations(b) : y.name \in SingleOnly}) :
                          Key(x[1]) < Key(x[2]) /\ Field(x[1]) # Field(x[2])}} : b \in BS}
 (* the contexts in which a well-formed case / a single malformation is additionally run *)
 Ctx(fx, sm, ft, op) == [DefaultCtx EXCEPT !.fixed = fx, !.sample = sm, !.fitted = ft, !.opt = op]
@@ -230,6 +269,10 @@ SlicerCtxs(c) ==      \* every slicer class x (a bogus name and every option onl
     IF Len(c.mal) = 1 /\ c.mal[1].name = "SlicerUnknownKwarg"
     THEN UNION {{[DefaultCtx EXCEPT !.skind = k, !.skw = o] : o \in {"bogus"} \cup ForeignOptions(k)} :
                  k \in SlicerKinds}
+    ELSE IF Len(c.mal) = 1 /\ c.mal[1].name \in {"SlicerUnknownRef", "SlicerRefWrongType"}
+    THEN {[DefaultCtx EXCEPT !.skind = k, !.skw = "reference"] : k \in SlicerKinds}     \* all three slicers
+    ELSE IF Len(c.mal) = 1 /\ c.mal[1].name = "SlicerRangeAboveData"
+    THEN {[DefaultCtx EXCEPT !.skind = k, !.skw = "value_range"] : k \in {"Width", "Number"}}
     ELSE {}
 InContexts(S) == UNION {{[c EXCEPT !.ctx = x] : x \in Contexts(c) \cup SlicerCtxs(c)} : c \in S}
 AllCases(BS, PairBS) == InContexts(GoodCases(BS) \cup Singles(BS)) \cup Pairs(PairBS)
@@ -241,23 +284,27 @@ ConstructExc(c, hc, sc) ==
     IF (\E i \in 1..c.n : c.dims[i].slicer = "UnknownKwarg")
        /\ ~(sc = "slicerkw" /\ c.ctx.skw = "value_range")    \* deviation: option hoisted into the base class
     THEN "TypeError"                                                             \* building the slicer
+    ELSE IF sc # "lateref" /\ \E i \in 1..c.n : c.dims[i].slicer = "RefWrongType" THEN "TypeError"
+    ELSE IF sc # "lateref" /\ \E i \in 1..c.n : c.dims[i].slicer = "UnknownRef" THEN "ValueError"
     ELSE IF \E i \in 1..c.n :                                                  \* _check_dist_descriptions
               LET dm == c.dims[i] IN
                 \/ dm.dist = "Missing"
-                \/ (dm.cond # Absent /\ dm.params = "Absent")
-                \/ (hc /\ i > 1 /\ dm.cond # Absent /\ ~HierarchyOk(i - 1, dm.cond))
+                \/ (IsCond(dm) /\ dm.params = "Absent")
+                \/ (sc # "paramsignored" /\ ~IsCond(dm) /\ dm.params # "Absent")
+                \/ (hc /\ i > 1 /\ IsCond(dm) /\ ~HierarchyOk(i - 1, dm.cond))
                 \/ dm.extra
          THEN "ValueError"
-    ELSE IF \E i \in 1..c.n : c.dims[i].cond # Absent /\ c.dims[i].params # "Exact"
+    ELSE IF \E i \in 1..c.n : IsCond(c.dims[i]) /\ c.dims[i].params # "Exact"
          THEN "ValueError"                                                      \* ConditionalDistribution
-    ELSE IF c.dims[1].cond # Absent THEN "RuntimeError"                          \* first dimension
+    ELSE IF IsCond(c.dims[1]) THEN "RuntimeError"                                \* first dimension
     ELSE "none"
-SliceExc(c) ==
-    LET bad == {i \in 1..c.n : ~SlicerUseOk(c.dims[i])} IN
+SliceExc(c, sc) ==
+    LET bad == {i \in 1..c.n : ~SlicerUseOk(c.dims[i])
+                              \/ (sc = "lateref" /\ c.dims[i].slicer \in {"UnknownRef", "RefWrongType"})} IN
       IF bad = {} THEN "none"
       ELSE LET s == c.dims[SetMin(bad)].slicer IN
              CASE s = "UnknownRef" -> "ValueError" [] s = "RefWrongType" -> "TypeError"
-               [] s = "TooFew" -> "RuntimeError"
+               [] OTHER -> "RuntimeError"
 (* sc = named shortcut deviations: "allfixed" = fit returns before validating the method   *)
 (* when nothing is to be estimated; "sample" = the 2-D check of DirectSampling is only      *)
 (* made when the sample has to be drawn                                                     *)
